@@ -28,7 +28,7 @@ pub const HOOK: bool = cfg!(has_h3);
 
 #[derive(Clone)]
 struct Key {
-    lits: Vec<i32>, // sorted by abs: the cache key the implementation uses
+    lits: Vec<i32>, // sorted by abs, each literal once: the cache key the implementation uses (F19)
     c: usize,       // count(A) by the truth table of the source formula
 }
 
@@ -36,7 +36,7 @@ struct Key {
 struct Req {
     key: usize,
     amount: usize,
-    lits: Vec<i32>, // as passed (a permutation of the key)
+    lits: Vec<i32>, // as passed (the literals of the key in some order, possibly repeated)
 }
 
 /// a complete configuration as a bit mask; None if it is not a complete, abs-sorted configuration
@@ -538,6 +538,13 @@ fn make_reqs(rng: &mut Rng, keys: &[Key], which: &[usize], amounts: &dyn Fn(usiz
         .map(|&k| {
             let am = amounts(keys[k].c);
             let mut lits = keys[k].lits.clone();
+            // F19: the key is the SET of literals - every third request repeats one or two of them
+            if !lits.is_empty() && rng.chance(1, 3) {
+                for _ in 0..(1 + rng.below(2)) {
+                    let extra = *rng.pick(&keys[k].lits);
+                    lits.push(extra);
+                }
+            }
             rng.shuffle(&mut lits);
             Req { key: k, amount: *rng.pick(&am), lits }
         })
@@ -628,23 +635,36 @@ pub fn run(_kind: &str, ctx: &Ctx, out: &mut dyn Write) {
         }
     }
 
-    // ---------------- the same assumption SET written with a repeated literal ----------------
-    // (sequential, no hook needed): `enum a 1` and `enum a 1 1` ask for the same set
+    // ---------------- the same assumption SET spelled differently ----------------
+    // (sequential, no scheduling needed).  Finding K12: the cursor was keyed by the assumption LIST,
+    // so `enum a 1` and `enum a 1 1` had separate cursors and handed out the same configurations
+    // again.  Repair F19: the key is the set (sorted, de-duplicated list).  All spellings of one set
+    // are filed under ONE key here; the oracle of chk_c17.ml (no configuration a second time before
+    // the cycle is complete, the answers are those of a sequential run on one cursor, final cursor)
+    // and, with hook H3, the snapshot of the cursor map (no entry besides the two keys) decide.
     {
         let d = load(&["t 1 0".to_string()], Some(4)).expect("4 free features load");
         let mut case = Case {
             id: "c17-dupset".into(),
-            info: "4 free features; requests for the set {1} written as [1] and as [1,1], processed one after another".into(),
+            info: "4 free features; requests for the sets {1} and {2,-3} spelled with repeated literals and in different orders, processed one after another".into(),
             n: 4,
             ddnnf: d,
-            keys: vec![Key { lits: vec![1], c: 8 }],
+            keys: vec![Key { lits: vec![1], c: 8 }, Key { lits: vec![2, -3], c: 4 }],
         };
         let reqs = vec![
             Req { key: 0, amount: 3, lits: vec![1] },
             Req { key: 0, amount: 3, lits: vec![1, 1] },
+            Req { key: 1, amount: 1, lits: vec![2, -3] },
+            Req { key: 1, amount: 2, lits: vec![-3, 2, -3, 2] },
+            Req { key: 0, amount: 3, lits: vec![1, 1, 1] },
+            Req { key: 1, amount: 2, lits: vec![2, 2, -3] },
+            Req { key: 0, amount: 2, lits: vec![1] },
+            Req { key: 1, amount: 1, lits: vec![-3, -3, 2] },
         ];
+        let keys = case.keys.clone();
         let (refs, _) = sequential_reference(&mut case, &[]);
         let mut s = case_header(&case, "dupset", &reqs, &refs, &[]);
+        reset(&mut case.ddnnf, &keys);
         writeln!(s, "run 0 workers 1 sequential sched").unwrap();
         for (i, r) in reqs.iter().enumerate() {
             let mut a = r.lits.clone();
@@ -653,9 +673,20 @@ pub fn run(_kind: &str, ctx: &Ctx, out: &mut dyn Write) {
             let res = guarded(|| dd.enumerate(&mut a, amount));
             writeln!(s, "ans 0 {} {}", i, answer_tokens(&res, case.n)).unwrap();
         }
-        // leave the cursor of the second spelling at 0 again (a request for count(A) ends the cycle)
-        let dd = &mut case.ddnnf;
-        let _ = guarded(|| dd.enumerate(&mut vec![1, 1], 8));
+        #[cfg(has_h3)]
+        {
+            let (v, foreign) = snapshot(&keys);
+            writeln!(s, "fin 0 {} foreign {}", join(&v), foreign).unwrap();
+        }
+        // leave every cursor this case may have touched at 0 again (a request for count(A)
+        // configurations ends the running cycle of that spelling)
+        for r in reqs.iter() {
+            let mut a = r.lits.clone();
+            let c = keys[r.key].c;
+            let dd = &mut case.ddnnf;
+            let _ = guarded(|| dd.enumerate(&mut a, c));
+        }
+        reset(&mut case.ddnnf, &keys);
         writeln!(s, "explored 1 sequential").unwrap();
         writeln!(s, "end").unwrap();
         out.write_all(s.as_bytes()).unwrap();
